@@ -69,6 +69,27 @@ check("dict[str,DNode] root", dict[str, D], {"k": wd}, {"k": D(1, {"a": D(2)})})
 wt = {"val": 1, "kids": [{"val": 2, "kids": []}]}
 check("TNode", T, wt, T(1, (T(2),)))
 check("tuple[TNode,...] root", tuple[T, ...], [wt], (T(1, (T(2),)),))
+m3 = mkmod("gm3", '''
+from __future__ import annotations
+import dataclasses, typing
+@dataclasses.dataclass
+class Item:
+    x: Item | None = None
+AL = typing.TypeAliasType("AL", Item)
+@dataclasses.dataclass
+class LNode:
+    x: typing.Optional[LNode] = None
+@dataclasses.dataclass
+class Head:
+    x: typing.Optional[LNode] = None
+@dataclasses.dataclass
+class KNode:
+    kids: dict[str, list[KNode]] = dataclasses.field(default_factory=dict)
+''')
+check("List[alias of recursive class]", typing.List[m3.AL], [{"x": {"x": None}}], [m3.Item(m3.Item())])
+check("same field name and type in two classes", tuple[m3.Head, m3.LNode], [{"x": {"x": None}}, {"x": None}], (m3.Head(m3.LNode()), m3.LNode()))
+check("Head -> LNode", m3.Head, {"x": {"x": {"x": None}}}, m3.Head(m3.LNode(m3.LNode())))
+check("dict[str, list[KNode]] root", dict[str, list[m3.KNode]], {"a": [{"kids": {"b": [{"kids": {}}]}}]}, {"a": [m3.KNode({"b": [m3.KNode()]})]})
 for t in (list[N], typing.Optional[O], I):
     for node in graph.static_order(t):
         if node.cyclic:
